@@ -47,7 +47,7 @@ Theorem C15_blind_means : forall d c r,
 Proof. exact blind_characterised. Qed.
 Print Assumptions C15_blind_means.
 
-(* PUBLIC / SHARED RESOURCES ARE READ-ONLY FOR OTHERS - conditional part: calls through shapes whose mutation
+(* generic part: calls through shapes whose mutation
    is dominated by check_db_obj_access (and reads, creates), by non-admin projects other than the owner, never
    change or remove the row, whether they can see it or not. *)
 Theorem C15_guarded_writes_preserve : forall ops d r,
@@ -57,6 +57,36 @@ Theorem C15_guarded_writes_preserve : forall ops d r,
   In r (rows (snd (run ops d))).
 Proof. exact guarded_preserves_foreign. Qed.
 Print Assumptions C15_guarded_writes_preserve.
+
+(* after the repair of F2 every writing function of the table is guarded (check_db_obj_access, the owner test,
+   or a query over the caller's own rows) ... *)
+Theorem C15_table_guarded : forall s, in_table s -> shape_guarded s = true.
+Proof.
+  assert (H : forallb (fun e => shape_guarded (snd e)) db_shapes = true) by (vm_compute; reflexivity).
+  intros s [n [m Hin]]. rewrite forallb_forall in H. exact (H (n, m, s) Hin).
+Qed.
+Print Assumptions C15_table_guarded.
+
+(* ... hence PUBLIC AND SHARED RESOURCES ARE READ-ONLY FOR OTHERS, unconditionally: no sequence of calls to functions
+   of the table by non-admin projects other than the owner - whatever they can see, read or address, name
+   collisions included - changes or removes the row. *)
+Theorem C15_public_readonly_for_others : forall ops d r,
+  wf_db d -> In r (rows d) ->
+  Forall (fun k : call => let '(s, c, a) := k in
+            in_table s /\ c_admin c = false /\ c_project c <> r_owner r) ops ->
+  In r (rows (snd (run ops d))).
+Proof.
+  intros ops d r Hwf Hr Hall. apply guarded_preserves_foreign; try assumption.
+  eapply Forall_impl; [|exact Hall]. intros [[s c] a] [Ht H]. split; [apply C15_table_guarded; exact Ht|exact H].
+Qed.
+Print Assumptions C15_public_readonly_for_others.
+
+Theorem C15_no_exposed_writer : forall s, in_table s -> shape_exposed s = false.
+Proof.
+  intros s Ht. destruct (shape_exposed s) eqn:E; [|reflexivity].
+  destruct (exposed_not_guarded s E) as [_ Hg]. rewrite (C15_table_guarded s Ht) in Hg. discriminate.
+Qed.
+Print Assumptions C15_no_exposed_writer.
 
 (* the guards the design names (db api update/delete_workflow_definition, update_workflow_execution,
    delete_cron_trigger, and the create_or_update wrappers of the first two) are present in the current source *)
@@ -157,20 +187,9 @@ Proof.
 Qed.
 
 (* ==== DEFECTS OF THE CURRENT TREE (each theorem below states that the faithful model violates the property
-   text; when the defect is repaired in the source the theorem stops being provable and must be removed) ==== *)
-
-(* DEFECT F2: "changed or deleted only by their owner or an admin" is refuted: the table contains exposed writers. *)
-Theorem C15_public_readonly_refuted :
-  exists n m s, In (n, m, s) db_shapes /\ is_write s = true /\ shape_guarded s = false /\ public_overwritten s.
-Proof.
-  destruct (find (fun e => shape_exposed (snd e)) db_shapes) as [[[n m] s]|] eqn:E;
-    [|vm_compute in E; discriminate].
-  apply find_some in E. destruct E as [Hin Hp]. cbn [snd] in Hp.
-  destruct (exposed_not_guarded s Hp) as [Hw Hg].
-  exists n, m, s. repeat split; try assumption.
-  apply C15_unguarded_write_violates; try assumption. exists n, m. exact Hin.
-Qed.
-Print Assumptions C15_public_readonly_refuted.
+   text; when the defect is repaired in the source the theorem stops being provable and must be removed).
+   F2 (public rows writable by other projects) was repaired in /repo by 11fed235: its refutation is gone and
+   C15_table_guarded / C15_public_readonly_for_others above now hold unconditionally. ==== *)
 
 (* DEFECT F9: a secure model class defined after mb.register_secure_model_hooks() has no hook; its create /
    update functions store a caller-supplied project_id as given. *)
@@ -184,9 +203,13 @@ Proof.
 Qed.
 Print Assumptions C15_owner_forced_refuted.
 
-(* DEFECT F7: create_resource_member does not require the caller to own the resource and
-   _get_accepted_resources does not require the offer to come from the owner: an accepted member re-shares. *)
-Theorem C15_reshare_refuted :
+(* F7 at the DB-API LEVEL (still true after 855c3b2d): create_resource_member does not require the caller to own the
+   resource and _get_accepted_resources does not require the offer to come from the owner, so at this level an
+   accepted member can re-share.  The repair 855c3b2d is in the REST controller (MembersController.post refuses a
+   caller who is not the owner), the only tenant-reachable caller of create_resource_member; that path is checked by
+   the implementation-side oracle of suite `rest` (regression: the re-offer must be refused, signature
+   reshare-by-member).  Kept as a statement about the db layer, not as an open defect. *)
+Theorem C15_db_level_reshare_possible :
   exists d0 cB cC g1 g2 r,
     In r (rows d0) /\ r_scope r = Private /\ c_admin cB = false /\ c_admin cC = false /\
     c_project cB <> r_owner r /\ c_project cC <> r_owner r /\
@@ -199,4 +222,4 @@ Proof.
   destruct reshare_witness as [H1 [H2 [H3 _]]].
   repeat split; try (cbn; discriminate); try assumption. left. reflexivity.
 Qed.
-Print Assumptions C15_reshare_refuted.
+Print Assumptions C15_db_level_reshare_possible.
